@@ -312,96 +312,220 @@ fn hist_feed(h: &Histogram, seed: u32) {
     h.observe(3.0);
 }
 
+/// A second handle to a registered metric, for changing it after a gather.
+#[derive(Clone)]
+pub enum Handle {
+    Fixed,
+    G(Gauge),
+    IG(IntGauge),
+    CV(CounterVec),
+    ICV(IntCounterVec),
+    GV(GaugeVec),
+    IGV(IntGaugeVec),
+    HV(HistogramVec),
+}
+
+impl Handle {
+    pub fn is_vec(&self) -> bool {
+        matches!(self, Handle::CV(_) | Handle::ICV(_) | Handle::GV(_) | Handle::IGV(_) | Handle::HV(_))
+    }
+    /// Give the child `t` (created if need be; it must be fresh or a gauge) the payload `seed`.
+    pub fn feed(&self, t: &[String], seed: u32) {
+        match self {
+            Handle::Fixed => {}
+            Handle::G(m) => m.set(float_gauge_value(seed)),
+            Handle::IG(m) => m.set(-((seed & 0xFF_FFFF) as i64)),
+            Handle::CV(m) => m.with_label_values(t).inc_by(float_counter_value(seed)),
+            Handle::ICV(m) => m.with_label_values(t).inc_by((seed & 0xFF_FFFF) as u64),
+            Handle::GV(m) => m.with_label_values(t).set(float_gauge_value(seed)),
+            Handle::IGV(m) => m.with_label_values(t).set(-((seed & 0xFF_FFFF) as i64)),
+            Handle::HV(m) => hist_feed(&m.with_label_values(t), seed),
+        }
+    }
+    pub fn reset(&self) {
+        match self {
+            Handle::CV(m) => m.reset(),
+            Handle::ICV(m) => m.reset(),
+            Handle::GV(m) => m.reset(),
+            Handle::IGV(m) => m.reset(),
+            Handle::HV(m) => m.reset(),
+            _ => {}
+        }
+    }
+    pub fn remove(&self, t: &[String]) -> bool {
+        let t: Vec<&str> = t.iter().map(|x| x.as_str()).collect();
+        match self {
+            Handle::CV(m) => m.remove_label_values(&t).is_ok(),
+            Handle::ICV(m) => m.remove_label_values(&t).is_ok(),
+            Handle::GV(m) => m.remove_label_values(&t).is_ok(),
+            Handle::IGV(m) => m.remove_label_values(&t).is_ok(),
+            Handle::HV(m) => m.remove_label_values(&t).is_ok(),
+            _ => false,
+        }
+    }
+}
+
 pub fn build_collector(c: &CollSpec) -> Box<dyn Collector> {
+    build_collector_h(c).0
+}
+
+pub fn build_collector_h(c: &CollSpec) -> (Box<dyn Collector>, Handle) {
     let names: Vec<&str> = c.vars.iter().map(|s| s.as_str()).collect();
     match c.kind {
         Kind::Counter => {
             let m = Counter::with_opts(opts_of(c)).unwrap();
             m.inc_by(float_counter_value(c.children[0].1));
-            Box::new(m)
+            (Box::new(m.clone()), Handle::Fixed)
         }
         Kind::IntCounter => {
             let m = IntCounter::with_opts(opts_of(c)).unwrap();
             m.inc_by((c.children[0].1 & 0xFF_FFFF) as u64);
-            Box::new(m)
+            (Box::new(m.clone()), Handle::Fixed)
         }
         Kind::Gauge => {
             let m = Gauge::with_opts(opts_of(c)).unwrap();
             m.set(float_gauge_value(c.children[0].1));
-            Box::new(m)
+            (Box::new(m.clone()), Handle::G(m))
         }
         Kind::IntGauge => {
             let m = IntGauge::with_opts(opts_of(c)).unwrap();
             m.set(-((c.children[0].1 & 0xFF_FFFF) as i64));
-            Box::new(m)
+            (Box::new(m.clone()), Handle::IG(m))
         }
         Kind::Histogram => {
             let m = Histogram::with_opts(HistogramOpts::from(opts_of(c)).buckets(HIST_CONFIGS[c.hist_cfg].to_vec())).unwrap();
             hist_feed(&m, c.children[0].1);
-            Box::new(m)
+            (Box::new(m.clone()), Handle::Fixed)
         }
         Kind::Pulling => {
             let v = float_gauge_value(c.children[0].1);
-            Box::new(PullingGauge::new(c.name.clone(), c.help.clone(), Box::new(move || v)).unwrap())
+            (Box::new(PullingGauge::new(c.name.clone(), c.help.clone(), Box::new(move || v)).unwrap()), Handle::Fixed)
         }
         Kind::CounterVec => {
             let m = CounterVec::new(opts_of(c), &names).unwrap();
             for (t, s) in &c.children {
                 m.with_label_values(t).inc_by(float_counter_value(*s));
             }
-            Box::new(m)
+            (Box::new(m.clone()), Handle::CV(m))
         }
         Kind::IntCounterVec => {
             let m = IntCounterVec::new(opts_of(c), &names).unwrap();
             for (t, s) in &c.children {
                 m.with_label_values(t).inc_by((*s & 0xFF_FFFF) as u64);
             }
-            Box::new(m)
+            (Box::new(m.clone()), Handle::ICV(m))
         }
         Kind::GaugeVec => {
             let m = GaugeVec::new(opts_of(c), &names).unwrap();
             for (t, s) in &c.children {
                 m.with_label_values(t).set(float_gauge_value(*s));
             }
-            Box::new(m)
+            (Box::new(m.clone()), Handle::GV(m))
         }
         Kind::IntGaugeVec => {
             let m = IntGaugeVec::new(opts_of(c), &names).unwrap();
             for (t, s) in &c.children {
                 m.with_label_values(t).set(-((*s & 0xFF_FFFF) as i64));
             }
-            Box::new(m)
+            (Box::new(m.clone()), Handle::IGV(m))
         }
         Kind::HistogramVec => {
             let m = HistogramVec::new(HistogramOpts::from(opts_of(c)).buckets(HIST_CONFIGS[c.hist_cfg].to_vec()), &names).unwrap();
             for (t, s) in &c.children {
                 hist_feed(&m.with_label_values(t), *s);
             }
-            Box::new(m)
+            (Box::new(m.clone()), Handle::HV(m))
         }
     }
 }
 
 /// Build the scenario in a fresh registry, registering in the given order.
 pub fn build(s: &Scenario, order: &[usize]) -> Result<Registry, String> {
+    build_h(s, order).map(|x| x.0)
+}
+
+/// ... and hand out a second handle to every collector (by index into `s.colls`).
+pub fn build_h(s: &Scenario, order: &[usize]) -> Result<(Registry, Vec<Handle>), String> {
+    let mut handles: Vec<Handle> = vec![Handle::Fixed; s.colls.len()];
     let common: Option<HashMap<String, String>> = s.common.as_ref().map(|m| m.iter().map(|(k, v)| (k.clone(), v.clone())).collect());
     let reg = Registry::new_custom(s.prefix.clone(), common).map_err(|e| format!("new_custom: {}", e))?;
     let mut done = vec![false; s.bundles.len()];
     for &i in order {
         match s.bundles.iter().position(|b| b.members.contains(&i)) {
-            None => reg.register(build_collector(&s.colls[i])).map_err(|e| format!("register #{}: {}", i, e))?,
+            None => {
+                let (c, h) = build_collector_h(&s.colls[i]);
+                handles[i] = h;
+                reg.register(c).map_err(|e| format!("register #{}: {}", i, e))?
+            }
             // a bundle is registered when the first of its members comes up
             Some(b) if !done[b] => {
                 done[b] = true;
                 let bundle = &s.bundles[b];
-                let parts = bundle.members.iter().map(|&m| build_collector(&s.colls[m])).collect();
+                let mut parts = vec![];
+                for &m in &bundle.members {
+                    let (c, h) = build_collector_h(&s.colls[m]);
+                    handles[m] = h;
+                    parts.push(c);
+                }
                 reg.register(Box::new(BundleColl { parts, order: bundle.collect_order.clone() }))
                     .map_err(|e| format!("register bundle {:?}: {}", bundle, e))?
             }
             Some(_) => {}
         }
     }
-    Ok(reg)
+    Ok((reg, handles))
+}
+
+/// Change the registered metrics through their second handles (generated: vectors are reset and refilled with the same tuples and new
+/// payloads, reset and left empty, lose one child or gain one; gauges are set again) and return the scenario that describes the new state.
+pub fn mutate(src: &mut Src, s: &Scenario, handles: &[Handle]) -> (Scenario, Vec<String>) {
+    let mut s2 = s.clone();
+    let mut log = vec![];
+    let mut fresh = 900_000u32;
+    for (i, (c, h)) in s2.colls.iter_mut().zip(handles).enumerate() {
+        if matches!(h, Handle::Fixed) || !src.chance(150) {
+            continue;
+        }
+        if !h.is_vec() {
+            fresh += 1;
+            c.children[0].1 = fresh;
+            h.feed(&[], fresh);
+            log.push(format!("#{} set again", i));
+            continue;
+        }
+        match src.below(4) {
+            0 => {
+                h.reset();
+                for ch in c.children.iter_mut() {
+                    fresh += 1;
+                    ch.1 = fresh;
+                    h.feed(&ch.0, fresh);
+                }
+                log.push(format!("#{} reset and refilled ({} children)", i, c.children.len()));
+            }
+            1 => {
+                h.reset();
+                c.children.clear();
+                log.push(format!("#{} reset", i));
+            }
+            2 if !c.children.is_empty() => {
+                let k = src.below(c.children.len());
+                let (t, _) = c.children.remove(k);
+                let ok = h.remove(&t);
+                log.push(format!("#{} removed {:?} -> {}", i, t, ok));
+            }
+            _ => {
+                let t: Vec<String> = c.vars.iter().map(|_| "\u{1}new".to_string()).collect();
+                if !c.children.iter().any(|ch| ch.0 == t) {
+                    fresh += 1;
+                    h.feed(&t, fresh);
+                    c.children.push((t, fresh));
+                    log.push(format!("#{} gained a child", i));
+                }
+            }
+        }
+    }
+    (s2, log)
 }
 
 /// The gathered result the statement prescribes (labels of every sample sorted by name; the
